@@ -43,7 +43,8 @@ OPS = {"=": PathSearchMethods.EQUALS, "^": PathSearchMethods.STARTS_WITH, "$": P
 VALUE_SRC = ["null", "true", "false", "0", "1", "-1", "5", "10", "123456789012", "1.0", "1.5", "-0.0", "1e3", "5.0",
              "0.5", "'5'", "'5.0'", "'1e3'", "' 5'", "'5 '", "'05'", "'+5'", "'10'", "'-1'", "a", "b", "ab", "abc",
              "B", "'a b'", "''", "'True'", "'true'", "'TRUE'", "'false'", "'none'", "'None'", "'null'", "'0x10'",
-             "'1_0'", "2020-01-01", "'2020-01-01'", "x.y", "'[a]'", "'1.'"]
+             "'1_0'", "2020-01-01", "'2020-01-01'", "x.y", "'[a]'", "'1.'", "&b1 true", "&b2 false",
+             "&i1 5", "&s1 ab", "'...'", "'(1)'"]
 TERMS = ["null", "None", "none", "true", "True", "TRUE", "false", "0", "1", "-1", "5", "10", "1.0", "1.5", "-0.0",
          "1e3", "1000.0", "5.0", " 5", "05", "+5", "a", "b", "ab", "abc", "B", "a b", "t", "T", "0x", "0x10", "16",
          "1_0", "_", "2020", "2020-01-01", "-01", "x", ".", "1.", "e", "0.5", "9", "2", "bc", ""]
